@@ -30,6 +30,7 @@ def run(ctx):
     ctx.call(GR.parsing_entry, "4")
     ctx.call(GR.validate_coverage, "4v")
     ctx.call(T.t_s1, "3x/T.S1")
+    ctx.call(GR.name_forms, "5n")
 
 
 NODE = "cartgraph/node.py"
